@@ -128,7 +128,7 @@ pub broadcast proof fn lemma_whole_dsub(a: int, b: int)
     requires is_whole(a), is_whole(b)
     ensures #[trigger] whole(dsub(a, b)) == whole(a) - whole(b), is_whole(dsub(a, b)), (dsub(a,b) >= 0) == (a >= b)
 {
-    assert((a - b) / D() == a / D() - b / D() && (a - b) % D() == 0) by(nonlinear_arith) requires a % D() == 0, b % D() == 0, D() == 10000000000000000000000000000;
+    lemma_whole_add(a, b);
 }
 pub broadcast proof fn lemma_round_sign(x: int)
     ensures x >= 0 ==> #[trigger] round_half_away(x) >= 0
@@ -189,8 +189,14 @@ pub proof fn lemma_whole_add(a: int, b: int)
     requires is_whole(a), is_whole(b)
     ensures is_whole(a + b), whole(a + b) == whole(a) + whole(b), is_whole(a - b), whole(a - b) == whole(a) - whole(b)
 {
-    assert((a + b) % D() == 0 && (a + b) / D() == a / D() + b / D() && (a - b) % D() == 0 && (a - b) / D() == a / D() - b / D()) by(nonlinear_arith)
-        requires a % D() == 0, b % D() == 0, D() == 10000000000000000000000000000;
+    let qa = a / D(); let qb = b / D();
+    vstd::arithmetic::div_mod::lemma_fundamental_div_mod(a, D());
+    vstd::arithmetic::div_mod::lemma_fundamental_div_mod(b, D());
+    assert(a == D() * qa && b == D() * qb);
+    assert(a + b == (qa + qb) * D() + 0) by(nonlinear_arith) requires a == D() * qa, b == D() * qb;
+    assert(a - b == (qa - qb) * D() + 0) by(nonlinear_arith) requires a == D() * qa, b == D() * qb;
+    vstd::arithmetic::div_mod::lemma_fundamental_div_mod_converse(a + b, D(), qa + qb, 0);
+    vstd::arithmetic::div_mod::lemma_fundamental_div_mod_converse(a - b, D(), qa - qb, 0);
 }
 pub proof fn lemma_whole_mono(a: int, b: int)
     requires a <= b
